@@ -331,3 +331,49 @@ def constructor_establishes_what_the_lemmas_assume():
     assert c.spatialLocator.grid is None
     assert c.name == "node" and len(c.childrenByLocator) == 0
     assert same_seq(c.getChildren(deep=True), [])
+
+
+# ---------------------------------------------------------------------------------------------- pickle / copy hooks
+@lemma(gen={"k": (0, 3)})
+def pickling_strips_the_parent_and_unpickling_relinks_the_children(k: int, hasGrid: bool, i0: int, i1: int, i2: int):
+    """the two hooks copy.deepcopy / pickle call on every composite (the copy machinery itself is outside the subset):
+    __getstate__ hands out the attributes with `parent` cut (the live object keeps its parent) and refuses an object
+    holding a reactor reference `r`; __setstate__ on the blank clone, given children that arrive parentless with
+    detached locations and a grid without owner, makes the clone the parent of every child, the owner of the grid and
+    re-attaches the child locations to that grid.  k <= 3 children, with / without a grid."""
+    k = choose(k, 0, 3)
+    boss = new(Composite, name="boss", parent=None, _children=[], spatialGrid=None, p=new(PStub))
+    root, grid, cs = mk_root(k, [i0, i1, i2], 0, 0)
+    root.parent = boss
+    boss._children.append(root)
+    state = root.__getstate__()
+    assert state["parent"] is None, "the pickled state does not reach upwards"
+    assert same(root.parent, boss) and same_seq(list(boss), [root]), "the live object keeps its parent"
+    assert same(state["_children"], root._children) and same(state["spatialGrid"], grid) and state["name"] == "root"
+    assert len(state) == len(root.__dict__), "every attribute is part of the state"
+    root.r = boss
+    try:
+        root.__getstate__()
+        refused = False
+    except RuntimeError:
+        refused = True
+    assert refused, "an object holding the whole reactor is not pickled"
+    # the receiving side
+    kids = []
+    idx = [i0, i1, i2]
+    for n in range(k):
+        c = new(Composite, name="k%d" % n, parent=None, _children=[], spatialGrid=None, p=new(PStub))
+        c.spatialLocator = IndexLocation(idx[n], 0, 0, None)
+        kids.append(c)
+    g2 = new(GridStub, armiObject=None, isAxialOnly=False) if hasGrid else None
+    clone = new(Composite)
+    clone.__setstate__({"name": "root", "parent": None, "_children": kids, "spatialGrid": g2, "spatialLocator": None, "cached": {}, "p": new(PStub)})
+    assert clone.parent is None and clone.name == "root" and same_seq(list(clone), kids), "an equal-shaped subtree whose root is detached"
+    for n in range(k):
+        assert same(kids[n].parent, clone), "children point at the new parent"
+        if hasGrid:
+            assert same(kids[n].spatialLocator.grid, g2) and kids[n].spatialLocator.i == idx[n], "their locations belong to the new grid"
+    if hasGrid:
+        assert same(g2.armiObject, clone), "the grid points at its new owner"
+    for c in cs:
+        assert same(c.parent, root), "the original is untouched"
